@@ -23,7 +23,7 @@ pub fn property() -> Property {
             "tokio paused clock with auto-advance; ticks of the periodic reaper happen at creation + k * interval",
             "which survivor is kept is left open; an entry idle for exactly the timeout may go either way",
         ],
-        families: vec![(Box::new(PoolFam), 20_000, 160_000), (Box::new(crate::props::e2e::InUseFam), 16, 160)],
+        families: vec![(Box::new(PoolFam), 20_000, 160_000), (Box::new(crate::props::e2e::InUseFam), 16, 160), (Box::new(BurstFam), 40, 400)],
     }
 }
 
@@ -260,6 +260,82 @@ impl Family for PoolFam {
         out.class_if(nt_get, "get-with-closed-entry");
         out.class_if(case.min_idle == 0, "min_idle=0");
         out.class_if(case.timeout_s < case.interval_s, "timeout<interval");
+        Ok(out)
+    }
+}
+
+// ------------------------------------------------------------------------------------------
+// family `burst` (Lab-S): every session the real Client dials is in the pool until a request takes
+// it out - none is lost (alive but unreachable: never handed out, never reaped)
+
+use crate::lab_sock::world::*;
+use crate::lab_sock::{real_client, start_socks5};
+use crate::props::c13::{one_request, start_forwarder};
+
+#[derive(Clone, Debug, Serialize, Deserialize)]
+pub struct BurstCase {
+    pub bursts: Vec<u8>,
+}
+
+pub struct BurstFam;
+
+impl Family for BurstFam {
+    type Case = BurstCase;
+    fn name(&self) -> &'static str {
+        "burst"
+    }
+    fn strategy(&self, _tier: Tier) -> BoxedStrategy<BurstCase> {
+        proptest::collection::vec(prop_oneof![1u8..4, 4u8..24], 1..5).prop_map(|bursts| BurstCase { bursts }).boxed()
+    }
+    fn case_budget_s(&self) -> u64 {
+        120
+    }
+    fn run(&self, case: &BurstCase, _cx: &CaseCtx) -> CaseResult {
+        let mut out = Outcome::new();
+        let c = case.clone();
+        let r = with_world(|w| {
+            w.rt.block_on(async {
+                let case = c;
+                let fwd = start_forwarder(w.server).await?;
+                let client = real_client(fwd.addr, anytls_rs::padding::DEFAULT_PADDING_SCHEME, SessionPoolConfig::default())?;
+                let socks = start_socks5(client.clone()).await?;
+                // model under today's lifecycle: a dial inserts, a reuse takes out: pooled += 2 d - b
+                let mut pooled: i64 = 0;
+                let mut n = 0usize;
+                for (bi, b) in case.bursts.iter().enumerate() {
+                    let b = *b as usize;
+                    let before = fwd.accepted.load(std::sync::atomic::Ordering::SeqCst);
+                    let mut hs = Vec::new();
+                    for k in 0..b {
+                        hs.push(tokio::spawn(one_request(socks, w.echo_a.addr, n + k + 1)));
+                    }
+                    n += b;
+                    for h in hs {
+                        match h.await {
+                            Ok(Ok(())) => {}
+                            Ok(Err(f)) => return Err(Fail::plain("C12.live2", f.detail)),
+                            Err(e) => return Err(Fail::plain("C12.live2", format!("request task: {e}"))),
+                        }
+                    }
+                    tokio::time::sleep(Duration::from_millis(40)).await;
+                    let d = fwd.accepted.load(std::sync::atomic::Ordering::SeqCst) - before;
+                    pooled = (pooled + 2 * d as i64 - b as i64).max(0);
+                    let idle = client.verif_session_pool().idle_count().await as i64;
+                    ensure!(
+                        idle == pooled,
+                        "C12.count",
+                        "after burst #{bi} of {b} simultaneous requests ({d} sessions dialled) the pool holds {idle} idle sessions, {pooled} dialled sessions were never taken out: the missing ones are alive but unreachable (never handed out, never reaped)"
+                    );
+                }
+                Ok(())
+            })
+        });
+        if let Err(f) = r {
+            reset_world();
+            return Err(f);
+        }
+        out.nt(case.bursts.iter().any(|b| *b >= 4));
+        out.class_if(case.bursts.iter().any(|b| *b >= 8), "burst>=8");
         Ok(out)
     }
 }
